@@ -53,6 +53,9 @@ def clock_choices(quick):
         for lab, t, C in G.clock_forms(h, mi):
             if lab == "clock:h in the POD":
                 continue          # recorded finding of C06 (bare hour + part of day)
+            if lab == "clock:HHMM" and 1900 <= h * 100 + mi <= 2029:
+                continue          # bare 4 digits that are also a year of the vocabulary (2020, 2015): next to a day that is genuinely a year
+                                  # as well (the military-time heuristic of C05's exclusion)
             if quick and lab in seen:
                 continue
             seen.add(lab)
